@@ -1,5 +1,5 @@
 """C06 — prescreening never discards a contribution that matters."""
-import os, sys, shutil
+import os, sys, shutil, math
 from vcommon import *
 import gen, pair_k, api_k
 
@@ -15,7 +15,7 @@ def run(tier, replay=None):
     res = Result(PID, tier, LEVEL)
     res.cov["rule"] = ("proof obligation: Properties_C06.v (the API-level screen removes additive terms only). Measured on the implementation, same build, same input: "
                        "every screen active vs every screen bypassed (hooks), |on - off| <= 1e-9 x prod sum|c|, for shell pairs biased to the screening boundary "
-                       "(distances 4..40 bohr, tight exponents, small coefficients, high l, diffuse shells near the centre) and for integrator matrices of stretched "
+                       "(distances 4..40 bohr, tight exponents, small coefficients, high l, diffuse shells near the centre, tight shells far from the centre against diffuse high-l partners) and for integrator matrices of stretched "
                        "systems; a deviation is re-evaluated with ONE site bypassed at a time and attributed to a recorded finding only if bypassing that site alone removes it")
     ok = coq_properties(res, PID)
     if not ok:
@@ -28,7 +28,29 @@ def run(tier, replay=None):
     for k in range(n):
         LA, LB, L = rng.randint(0, maxl), rng.randint(0, maxl), rng.randint(0, maxl)
         C = [0.0, 0.0, 0.0]
-        kind = rng.choice(["far", "far", "tight", "diffuse-near", "mixed"])
+        kind = rng.choice(["far", "far", "tight", "diffuse-near", "mixed", "tight-far", "opposite"])
+        if kind == "opposite":
+            # the two shells on opposite sides of the ECP centre (angle A-C-B near 180 degrees): a semi-local term depends on |A| and |B|,
+            # not on |A-B|, so an estimate must not fall off with the distance between the shells
+            da = gen.rand_dir(rng); tilt = [0.15 * x for x in gen.rand_dir(rng)]
+            dA = rng.uniform(1.0, 3.5); dB = rng.uniform(1.0, 3.5)
+            A = [x * dA for x in da]; B = [(-x + t) * dB for x, t in zip(da, tilt)]
+            sa = gen.rand_shell(rng, LA, A, nprim=1, emin=1.0, emax=12.0); sb = gen.rand_shell(rng, LB, B, nprim=1, emin=1.0, emax=12.0)
+            u = gen.rand_ecp(rng, max(L, 1), [0.0, 0.0, 0.0], nper=(1, 1), amin=0.3, amax=5.0)
+            cases.append({"id": "s%d" % k, "extra": {"kind": kind}, "shells": [sa, sb], "ecps": [u]})
+            continue
+        if kind == "tight-far":
+            # a tight low-l shell far from the ECP (a*|A|^2 of several hundred: the separate exponentials of the estimate
+            # overflow/underflow) against a diffuse high-l shell on or near the centre and a soft potential
+            LA = rng.randint(0, 1); LB = rng.randint(2, maxl); L = rng.randint(1, min(3, maxl))
+            ea = rng.loguniform(5.0, 40.0); dA = math.sqrt(rng.uniform(500.0, 2500.0) / ea)
+            A = [x * dA for x in gen.rand_dir(rng)]
+            B = [0.0, 0.0, 0.0] if rng.randint(0, 1) else [x * rng.uniform(0.05, 1.0) for x in gen.rand_dir(rng)]
+            sa = {"l": LA, "c": A, "e": [ea], "d": [rng.uniform(0.5, 1.5)]}
+            sb = gen.rand_shell(rng, LB, B, nprim=1, emin=0.008, emax=0.05)
+            u = gen.rand_ecp(rng, L, [0.0, 0.0, 0.0], nper=(1, 1), amin=0.03, amax=0.3)
+            cases.append({"id": "s%d" % k, "extra": {"kind": kind}, "shells": [sa, sb], "ecps": [u]})
+            continue
         dA = rng.uniform(4, 40) if kind in ("far", "mixed") else rng.uniform(0.3, 4)
         dB = rng.uniform(4, 40) if kind == "far" else rng.uniform(0.3, 6)
         A = [x * dA for x in gen.rand_dir(rng)]; B = [x * dB for x in gen.rand_dir(rng)]
@@ -77,6 +99,24 @@ def run(tier, replay=None):
                 u["c"] = [x * f for x in u["c"]]
             for mode in (0, 1):
                 sysc.append({"id": "y%d_%d" % (k, mode), "extra": {"order": 0, "noscreen": mode}, "shells": sh_, "ecps": ec, "_sa": sa_, "_ea": ea_})
+        # dissimilar shells: a compact low-l shell far from a soft ECP whose own atom carries a diffuse high-l shell, the compact
+        # shell listed LAST (only the first shell of a pair is screened); the distance scans the window in which the screen decides
+        nst = len(sysc) // 2
+        for fam in range(3 if tier == "quick" else 12):
+            lhi = maxl; ehi = rng.loguniform(0.006, 0.012); elo = rng.uniform(1.0, 3.0); llo = rng.randint(0, 1)
+            dirn = gen.rand_dir(rng)
+            eta = rng.uniform(0.06, 0.2)
+            u = {"c": [0.0, 0.0, 0.0], "p": [{"n": 2, "l": l_, "a": eta * (1.0 if l_ == 1 else rng.uniform(1.0, 2.0)), "d": rng.uniform(1.0, 4.0) * rng.choice([1, -1])} for l_ in range(2)]}
+            mu_ = elo * eta / (elo + eta)
+            # the screen compares ~exp(-mu d^2) with a threshold: scan -log of that factor across the decision region
+            for t_ in ([26.0, 29.0, 31.0, 33.0, 36.0, 40.0, 45.0, 50.0] if tier == "quick" else [24.0 + 1.0 * i for i in range(34)]):
+                d_ = math.sqrt(t_ / mu_)
+                P = [x * d_ for x in dirn]
+                sh_ = [{"l": 0, "c": [0.0, 0.0, 0.0], "e": [0.5], "d": [1.0]}, {"l": lhi, "c": [0.0, 0.0, 0.0], "e": [ehi], "d": [1.0]},
+                       {"l": llo, "c": P, "e": [elo], "d": [1.0]}]
+                for mode in (0, 1):
+                    sysc.append({"id": "y%d_%d" % (nst, mode), "extra": {"order": 0, "noscreen": mode}, "shells": sh_, "ecps": [u], "_sa": [0, 0, 1], "_ea": [0]})
+                nst += 1
         mism, m = api_k.run_driver(sysc, tmp)
         mats = {}
         cur = None
